@@ -109,6 +109,13 @@ def _ops_of(recipe: Dict[str, Any]) -> List[Dict[str, Any]]:
     return [{"status": recipe["status"], "body": recipe["body"], "kind": recipe.get("kind", "?"), "ser": recipe.get("ser", [])}]
 
 
+def attr_tok(v: Any) -> str:
+    """an exception attribute, type-tagged; a class outside the value model is its own token (never `None`)"""
+    if v is None or isinstance(v, (bool, int, float, str)):
+        return val_tok(v)
+    return "o:" + tok_str(type(v).__name__)
+
+
 def run_recipe(ctx: Ctx, recipe: Dict[str, Any], cid: str) -> Case:
     decl = recipe["decl"]
     kwargs = {n: val_unjson(j) for n, j in recipe.get("kwargs", [])}
@@ -123,10 +130,17 @@ def run_recipe(ctx: Ctx, recipe: Dict[str, Any], cid: str) -> Case:
         req.response = (status, {}, body)      # the SAME action object answers every call of the history
         exc: Optional[BaseException] = None
         result = None
+        via = op.get("via", "action")
         try:
-            result = run(action.async_call(**kwargs))
+            if via == "service_obj":
+                result = run(action.service.async_call_action(action, **kwargs))
+            elif via == "service_name":
+                result = run(action.service.async_call_action(action.name, **kwargs))
+            else:
+                result = run(action.async_call(**kwargs))
         except Exception as e:  # noqa: BLE001 - the exception is the observation
             exc = e
+        tags.add("via:" + via)
         lines.append("call")
         variants = [] if not isinstance(body, str) else [body.rstrip(PAD), body.strip(PAD)]
         lines += oracle_lines(decl, variants)
@@ -144,8 +158,8 @@ def run_recipe(ctx: Ctx, recipe: Dict[str, Any], cid: str) -> Case:
             code = getattr(exc, "error_code", None)
             desc = getattr(exc, "error_desc", None)
             st = getattr(exc, "status", None)
-            lines.append(f"exc {exc_token(exc)} {lib_mro(exc)} {'~' if code is None else int(code)} "
-                         f"{opt_tok(desc if isinstance(desc, str) else None)} {'~' if st is None else int(st)}")
+            # type-tagged: a str / float / bool that merely prints like the number is a different token
+            lines.append(f"exc {exc_token(exc)} {lib_mro(exc)} {attr_tok(code)} {attr_tok(desc)} {attr_tok(st)}")
             tags.add("out:" + exc_token(exc))
         nontrivial = nontrivial or any(ln.startswith("xml ") and ln.endswith(" y") for ln in xl)
         sigs.append(f"{status}/{op.get('kind', '?')}/{'ret' if exc is None else exc_token(exc)}")
@@ -346,11 +360,7 @@ def rand_decl(rng) -> Dict[str, Any]:
     n_in = rng.choice([0, 0, 0, 1, 2])
     dirs = ["out"] * n_out + ["in"] * n_in
     rng.shuffle(dirs)
-    names: List[str] = []
-    while len(names) < len(dirs):
-        nm = rand_name(rng)
-        if nm not in names and not nm.startswith("Unknown_"):
-            names.append(nm)
+    names = c06.rand_names(rng, dirs)      # an in- and an out-argument may share a name
     args = []
     for nm, d in zip(names, dirs):
         if d == "in":
@@ -358,6 +368,7 @@ def rand_decl(rng) -> Dict[str, Any]:
         else:
             t = rng.choice(ALL_TYPES) if rng.random() < 0.7 else rng.choice(["ui2", "i4", "string", "boolean", "r4", "dateTime"])
             args.append({"name": nm, "dir": "out", "type": t})
+    c06.share_vars(rng, args, only_dir="out")
     return {
         "strict": rng.random() < 0.6,
         "device_url": rng.choice(c06.DEVICE_URLS[:3]),
@@ -365,6 +376,7 @@ def rand_decl(rng) -> Dict[str, Any]:
         "service_type": rng.choice(c06.SERVICE_TYPES),
         "action": rand_name(rng),
         "args": args,
+        "other_actions": rng.choice([0, 0, 1, 2]),
     }
 
 
@@ -409,7 +421,10 @@ def rand_response(rng, decl: Dict[str, Any], status: Optional[int] = None, kind:
         if head:
             ser.append("pad:head")
         body = head + body + tail
-    return {"status": status, "body": body, "kind": kind, "ser": sorted(set(ser))}
+    r = {"status": status, "body": body, "kind": kind, "ser": sorted(set(ser))}
+    if rng.random() < 0.3:
+        r["via"] = rng.choice(["service_obj", "service_name"])
+    return r
 
 
 def _kwargs_for(decl: Dict[str, Any]):
@@ -482,6 +497,13 @@ CORPUS = [
      "body": _ENV.format(f'<m:GetVolumeResponse xmlns:m="{_ST}">\n  <C> -12 </C>\n  <B>a &lt;b&gt; &amp;</B>\n  <A>TRUE</A>\n</m:GetVolumeResponse>')},
     {"decl": _d([("CurrentVolume", "ui2")]), "status": 200, "kind": "fault", "body": _ENV.format("<s:Fault/>")},
     {"decl": _d([("CurrentVolume", "ui2")]), "status": 200, "kind": "nobody", "body": None},
+    # an in- and an out-argument of one name (audit C07-1)
+    {"decl": dict(_d([]), action="Swap", args=[{"name": "X", "dir": "out", "type": "string"}, {"name": "X", "dir": "in", "type": "ui2"}]),
+     "kwargs": [["X", ["i", "5"]]],
+     "ops": [{"status": 200, "kind": "success", "body": _ENV.format(f'<u:SwapResponse xmlns:u="{_ST}"><X>hello</X></u:SwapResponse>')}]},
+    {"decl": dict(_d([], strict=False), action="Swap", args=[{"name": "X", "dir": "in", "type": "ui2"}, {"name": "X", "dir": "out", "type": "i4"}]),
+     "kwargs": [["X", ["i", "5"]]],
+     "ops": [{"status": 200, "kind": "success", "body": _ENV.format(f'<u:SwapResponse xmlns:u="{_ST}"><X>-7</X></u:SwapResponse>')}]},
     # history on one action object: full answer, then a smaller subset, a fault, garbage, and the full answer again
     {"decl": _d([("A", "boolean"), ("B", "string"), ("C", "i4")]), "ops": [
         {"status": 200, "kind": "success", "body": _ENV.format(f'<u:GetVolumeResponse xmlns:u="{_ST}"><A>1</A><B>x</B><C>5</C></u:GetVolumeResponse>')},
